@@ -16,7 +16,8 @@ from authlib.common.urls import add_params_to_uri, url_decode
 
 RULE = ("fn cases: one library call on hostile text values compared with the Lean model and with a direct round-trip oracle; "
         "e2e cases: one (grant, auth method, token placement) driven through the requests-, httpx- and async-httpx-based clients with recording "
-        "transports, the captured wire request parsed by the library's server half; non-trivial = distinct case containing a value with a reserved or non-ASCII character")
+        "transports, the captured wire request parsed by the library's server half; "
+        "the client_secret_jwt / private_key_jwt methods and the three RFC 7521 assertion clients, their assertions read by the RFC 7523 server half; non-trivial = distinct case containing a value with a reserved or non-ASCII character")
 ASSUMPTIONS = ["octet-level model: text is UTF-8 (latin-1 for the Basic header, as the client encodes it)",
                "str-level unquote(errors='replace') is outside the model; generated values are valid UTF-8"]
 
@@ -97,6 +98,20 @@ def e2e_cases(rng, tier):
     return out
 
 
+def e2e_jwt_cases(rng, tier):
+    """the two JWT client-authentication methods and the RFC 7521 assertion clients (requests, httpx, async httpx)"""
+    out = []
+    n = 24 if tier == "quick" else 400
+    for i in range(n):
+        out.append({"op": "e2e_jwtauth", "auth": ["client_secret_jwt", "private_key_jwt"][i % 2], "client_id": rng.choice(VALS), "client_secret": rng.choice(VALS[:8]) * 4,
+                    "grant": rng.choice(["client_credentials", "authorization_code", "password"]), "code": rng.choice(VALS), "scope": rng.choice([None, "a b", "sp ace ü"]),
+                    "username": rng.choice(VALS), "password": rng.choice(VALS), "token": "tok", "placement": "header", "redirect_uri": None, "verifier": None, "refresh": "r"})
+        out.append({"op": "e2e_assertion", "issuer": rng.choice(VALS), "subject": rng.choice(VALS + [None]), "audience": rng.choice([None, "https://as.example/token", "aud é&="]),
+                    "scope": rng.choice([None, "a b", "sp ace ü"]), "claims": rng.choice([None, {"x": "y é"}]), "alg": ["HS256", "RS256"][i % 2], "token": "tok",
+                    "placement": rng.choice(["header", "body", "uri"])})
+    return out
+
+
 def e2e_state_cases(rng, tier):
     out = []
     sts = [None, "", "S1", "S 2&x=y", "ü"]
@@ -109,6 +124,10 @@ def e2e_state_cases(rng, tier):
 
 
 def cases(rng, tier):
+    return _cases(rng, tier) + e2e_jwt_cases(rng, tier)
+
+
+def _cases(rng, tier):
     return fn_cases(rng, tier) + e2e_cases(rng, tier) + e2e_state_cases(rng, tier)
 
 
@@ -244,6 +263,10 @@ def impl(c):
         return e2e(c)
     if op == "e2e_state":
         return e2e_state(c)
+    if op == "e2e_jwtauth":
+        return e2e_jwtauth(c)
+    if op == "e2e_assertion":
+        return e2e_assertion(c)
     raise AssertionError(op)
 
 
@@ -346,6 +369,107 @@ def e2e(c):
             s, rec = mk(c)
             _drive(s, c, is_async)
             out[name] = [_server_view(r) for r in rec]
+        except Exception as e:
+            out[name] = {"raised": type(e).__name__ + ": " + str(e)[:100]}
+    return out
+
+
+_KEYS = {}
+
+
+def _rsa():
+    if not _KEYS:
+        from authlib.jose import JsonWebKey
+        k = JsonWebKey.generate_key("RSA", 2048, is_private=True)
+        _KEYS["priv"], _KEYS["pub"] = k.as_pem(is_private=True), k.as_pem()
+    return _KEYS["priv"], _KEYS["pub"]
+
+
+def e2e_jwtauth(c):
+    from authlib.oauth2.rfc7523 import ClientSecretJWT, PrivateKeyJWT, JWTBearerClientAssertion
+    url = "https://as.example/token"
+    priv, pub = _rsa()
+    out = {}
+    for name, mk, is_async in (("requests", _record_requests, False), ("httpx", lambda c: _record_httpx(c, False), False), ("async", lambda c: _record_httpx(c, True), True)):
+        try:
+            cc = dict(c, client_secret=c["client_secret"] if c["auth"] == "client_secret_jwt" else priv)
+            s, rec = mk(cc)
+            s.register_client_auth_method(ClientSecretJWT(url) if c["auth"] == "client_secret_jwt" else PrivateKeyJWT(url))
+            _drive(s, c, is_async)
+            view = _server_view(rec[0])
+            form = dict(view["form"])
+            # the server half: RFC 7523 client assertion processing with the key registered for the client
+            ja = JWTBearerClientAssertion(url, validate_jti=False)
+            key = c["client_secret"] if c["auth"] == "client_secret_jwt" else pub
+            try:
+                claims = ja.process_assertion_claims(form.get("client_assertion"), lambda headers, payload: key)
+                got = {"iss": claims.get("iss"), "sub": claims.get("sub"), "aud": claims.get("aud")}
+            except Exception as e:
+                got = {"server_error": type(e).__name__ + ": " + str(getattr(e, "description", e))[:80]}
+            out[name] = {"assertion_type": form.get("client_assertion_type"), "claims": got, "client_secret_in_form": "client_secret" in form,
+                         "form": sorted((k, v) for k, v in form.items() if k not in ("client_assertion",)), "requests": len(rec)}
+        except Exception as e:
+            out[name] = {"raised": type(e).__name__ + ": " + str(e)[:100]}
+    return out
+
+
+def e2e_assertion(c):
+    from authlib.integrations.requests_client import AssertionSession
+    from authlib.integrations.httpx_client import AssertionClient, AsyncAssertionClient
+    from authlib.oauth2.rfc7523 import JWTBearerGrant
+    import httpx, requests
+    from requests.adapters import BaseAdapter
+    url = "https://as.example/token"
+    priv, pub = _rsa()
+    key, vkey = ("k" * 32, "k" * 32) if c["alg"] == "HS256" else (priv, pub)
+    kw = dict(token_endpoint=url, issuer=c["issuer"], subject=c["subject"], audience=c["audience"], claims=c["claims"], scope=c["scope"], token_placement=c["placement"],
+              key=key, alg=c["alg"])
+    out = {}
+    for name in ("requests", "httpx", "async"):
+        rec = []
+        try:
+            if name == "requests":
+                class A(BaseAdapter):
+                    def send(self, request, **kw_):
+                        body = request.body.decode() if isinstance(request.body, bytes) else (request.body or "")
+                        rec.append((request.method, request.url, dict(request.headers), body))
+                        r = requests.Response(); r.status_code = 200; r.request = request
+                        r._content = json.dumps({"access_token": c["token"], "token_type": "bearer", "expires_in": 3600}).encode()
+                        r.headers["Content-Type"] = "application/json"
+                        return r
+                    def close(self):
+                        pass
+                s = AssertionSession(**kw)
+                s.mount("https://", A())
+                s.post("https://rs.example/api?keep=1", data={"k": "v"})
+            else:
+                def handler(request):
+                    rec.append((request.method, str(request.url), dict(request.headers), request.content.decode()))
+                    return httpx.Response(200, json={"access_token": c["token"], "token_type": "bearer", "expires_in": 3600})
+                if name == "httpx":
+                    s = AssertionClient(**kw, transport=httpx.MockTransport(handler))
+                    s.post("https://rs.example/api?keep=1", data={"k": "v"})
+                else:
+                    async def ahandler(request):
+                        return handler(request)
+                    async def go():
+                        s = AsyncAssertionClient(**kw, transport=httpx.MockTransport(ahandler))
+                        await s.post("https://rs.example/api?keep=1", data={"k": "v"})
+                        await s.aclose()
+                    asyncio.run(go())
+            views = [_server_view(r) for r in rec]
+            form = dict(views[0]["form"]) if views else {}
+            try:
+                from authlib.jose import jwt as _jwt
+                cl = _jwt.decode(form.get("assertion"), vkey)
+                got = {k: cl.get(k) for k in ("iss", "sub", "aud", "x")}
+            except Exception as e:
+                got = {"server_error": type(e).__name__}
+            res = views[1] if len(views) > 1 else {}
+            pl = c["placement"]
+            bearer = res.get("bearer") if pl == "header" else dict(res.get("form", [])).get("access_token") if pl == "body" else dict(res.get("args", [])).get("access_token")
+            out[name] = {"grant_type": form.get("grant_type"), "scope": form.get("scope"), "claims": got, "requests": len(rec), "bearer": bearer,
+                         "kept": [dict(res.get("args", [])).get("keep"), dict(res.get("form", [])).get("k")]}
         except Exception as e:
             out[name] = {"raised": type(e).__name__ + ": " + str(e)[:100]}
     return out
@@ -477,6 +601,39 @@ def oracle(c, out):
             bad(f"implicit response parsed to {project(c, out)}, expected {want}", kind="response-parse")
     elif op == "e2e":
         v += e2e_oracle(c, out)
+    elif op == "e2e_jwtauth":
+        for name in ("requests", "httpx", "async"):
+            o = out[name]
+            sig = {"op": op, "auth": c["auth"], "client": name}
+            if "raised" in o:
+                v.append((f"{name} client raised {o['raised']}", dict(sig, kind="client-raised"))); continue
+            want = {"iss": c["client_id"], "sub": c["client_id"], "aud": "https://as.example/token"}
+            if o["assertion_type"] != "urn:ietf:params:oauth:client-assertion-type:jwt-bearer" or o["claims"] != want:
+                v.append((f"{name}: the server half reads the {c['auth']} assertion as {o['assertion_type']!r} / {o['claims']}, the client is {c['client_id']!r}", dict(sig, kind="auth-altered")))
+            if o["client_secret_in_form"]:
+                v.append((f"{name}: the client secret / private key travels in the form next to the assertion", dict(sig, kind="secret-on-wire")))
+            form = dict(o["form"])
+            if form.get("grant_type") != c["grant"] or (c["grant"] == "authorization_code" and form.get("code") != c["code"]):
+                v.append((f"{name}: grant parameters altered: {o['form']}", dict(sig, kind="param-altered")))
+        ok = [out[n] for n in ("requests", "httpx", "async") if "raised" not in out[n]]
+        if len(ok) == 3 and not (ok[0] == ok[1] == ok[2]):
+            v.append(("the three client implementations emit different requests (as read by the server half)", {"op": op, "kind": "clients-differ", "auth": c["auth"]}))
+    elif op == "e2e_assertion":
+        for name in ("requests", "httpx", "async"):
+            o = out[name]
+            sig = {"op": op, "client": name}
+            if "raised" in o:
+                v.append((f"{name} assertion client raised {o['raised']}", dict(sig, kind="client-raised"))); continue
+            want = {"iss": c["issuer"], "sub": c["subject"], "aud": c["audience"] or "https://as.example/token", "x": (c["claims"] or {}).get("x")}
+            if o["claims"] != want or o["grant_type"] != "urn:ietf:params:oauth:grant-type:jwt-bearer":
+                v.append((f"{name}: the server half reads the assertion as {o['grant_type']!r} / {o['claims']}, the client meant {want}", dict(sig, kind="assertion-altered")))
+            if o["scope"] != c["scope"]:
+                v.append((f"{name}: scope read back as {o['scope']!r}, client meant {c['scope']!r}", dict(sig, kind="param-altered", param="scope")))
+            if o["requests"] != 2 or o["bearer"] != c["token"] or o["kept"] != ["1", "v"]:
+                v.append((f"{name}: resource request after the assertion grant: {o}", dict(sig, kind="bearer-altered", placement=c["placement"])))
+        ok = [out[n] for n in ("requests", "httpx", "async") if "raised" not in out[n]]
+        if len(ok) == 3 and not (ok[0] == ok[1] == ok[2]):
+            v.append(("the three assertion clients emit different requests (as read by the server half)", {"op": op, "kind": "clients-differ"}))
     return v
 
 
